@@ -21,8 +21,9 @@ type c13Scenario struct {
 	name  string
 	reqs  []Req
 	allow bool
-	noF   bool // responses contain random filler: skip stream comparison for write-error endings
-	buf   int  // transfer buffer size (0: default 64k pooled, -1: unpooled)
+	noF   bool  // responses contain random filler: skip stream comparison for write-error endings
+	buf   int   // transfer buffer size (0: default 64k pooled, -1: unpooled)
+	probe []Req // data-reading probe on a fresh connection afterwards (nil: files of the C02 world)
 }
 
 type faultPlan struct {
@@ -226,7 +227,11 @@ func c13Run(t *testing.T, root string, sc c13Scenario, mk func() *Model, plan fa
 		}
 		// ... and it is served correct data (nothing of the broken connection may leak into it)
 		pm := newModel(root, false)
-		for _, rq := range []Req{mkReq(opOpenFile, "/plain/f2048.bin"), rdReq(3, 2000), rdcReq(0, 2048), mkReq(opOpenFile, "/plain/f65537.bin"), rdReq(100, 65000)} {
+		probeReqs := sc.probe
+		if probeReqs == nil {
+			probeReqs = []Req{mkReq(opOpenFile, "/plain/f2048.bin"), rdReq(3, 2000), rdcReq(0, 2048), mkReq(opOpenFile, "/plain/f65537.bin"), rdReq(100, 65000)}
+		}
+		for _, rq := range probeReqs {
 			resp, cl := s.Exchange(p, rq.Encode())
 			if w, _ := pm.Check(rq, resp, cl); w != "" {
 				fail("probe-wrong-data", sprintf("fresh connection after the scenario: %s: %s", rq, w))
@@ -299,7 +304,7 @@ func c13PrefixOK(m *Model, rq Req, resp []byte) bool {
 func TestC13(t *testing.T) {
 	r := NewReporter(t)
 	defer r.Done()
-	r.Rule("12 scenarios (plain reads with the default, a 1000-byte and no pooled transfer buffer, generated image DVD/PS3 with lazily opened members, redump with adjacent and with both keys, 3k3y, directory enumeration with symlinks, create/write/delete, dir-size, CD reads); per scenario: fault-free run numbers the N leaf filesystem operations, then an injected error (EIO, EINTR, EAGAIN) at every index, a legal short read (1 byte / half) at every Read, a short read followed by EINTR/EAGAIN at the next operations, thorough: every pair of errors (i<j); and connection endings FIN / RST / idle timeout at every script byte position class write failure at every response byte position class, and a reset by a slowly receiving client (4096-byte send buffer, server blocked in Write) at every response byte position class; oracles: handle ledger empty after the connection ended, connection closed, fresh connection served, responses = model answer | failure code | correct prefix + disconnect; distinct by (scenario, deviation)")
+	r.Rule("12 scenarios (plain reads with the default, a 1000-byte and no pooled transfer buffer, generated image DVD/PS3 with lazily opened members, redump with adjacent and with both keys, 3k3y, directory enumeration with symlinks, create/write/delete, dir-size, CD reads); per scenario: fault-free run numbers the N leaf filesystem operations, then an injected error (EIO, EINTR, EAGAIN) at every index, a legal short read (1 byte / half) at every Read, a partial write (half, then ENOSPC) at every Write, a short read followed by EINTR/EAGAIN at the next operations, thorough: every pair of errors (i<j); and connection endings FIN / RST / idle timeout at every script byte position class write failure at every response byte position class, and a reset by a slowly receiving client (4096-byte send buffer, server blocked in Write) at every response byte position class; oracles: handle ledger empty after the connection ended, connection closed, fresh connection served, responses = model answer | failure code | correct prefix + disconnect; distinct by (scenario, deviation)")
 	w, objs := buildC02World(t, r)
 	defer w.Cleanup()
 	// extras: both-keys image, directory with symlinks, writable dir, CD image
@@ -391,6 +396,11 @@ func TestC13(t *testing.T) {
 				f.Err = syscall.EINTR
 			case "eagain":
 				f.Err = syscall.EAGAIN
+			case "wpartial":
+				if ev.Op != "Write" || ev.N < 2 {
+					return faultPlan{}, false
+				}
+				f.Err, f.Short = syscall.ENOSPC, (ev.N+1)/2
 			case "short1":
 				if ev.Op != "Read" || ev.N < 2 {
 					return faultPlan{}, false
@@ -406,7 +416,7 @@ func TestC13(t *testing.T) {
 		}
 		// (1) one deviation at every leaf operation index
 		for i := 0; i < N; i++ {
-			for _, kind := range []string{"err", "eintr", "eagain", "short1", "shorthalf"} {
+			for _, kind := range []string{"err", "eintr", "eagain", "short1", "shorthalf", "wpartial"} {
 				idx++
 				if !r.Mine(idx) {
 					continue
